@@ -633,7 +633,7 @@ func (x *Exec) indexAddr(base Value, idx *Term, bt types.Type) Value {
 	var cells []Value
 	switch b := base.(type) {
 	case Slice:
-		cells = b.a
+		cells = x.sl(b)
 	case *Value:
 		if b == nil {
 			x.goPanic("runtime error: invalid memory address or nil pointer dereference")
@@ -693,7 +693,7 @@ func (x *Exec) sliceOp(instr *ssa.Slice, base, lo, hi, max Value) Value {
 	var isNil bool
 	switch b := base.(type) {
 	case Slice:
-		cells = b.a
+		cells = x.sl(b)
 		isNil = b.a == nil
 	case StrV:
 		isStr = true
